@@ -20,6 +20,10 @@ inductive Item where
   | fail (e : Err)    -- yields a source that fails at once with `e` (the code wraps a raising mapper / condition into `throw(ex)`)
 deriving Repr, BEq, DecidableEq
 
+def Item.isFail : Item → Bool
+  | .fail _ => true
+  | _ => false
+
 inductive SeqKind where
   | concat   -- continues on completed
   | catch    -- continues on error, remembers last_exception
@@ -77,10 +81,15 @@ def seqTick {α} (kind : SeqKind) (items : Nat → Item) (s : SeqSt) (done : Boo
       -- caught the same way (`try: source = source(state) … except Exception as ex: observer.on_error(ex)`)
       ({ s with pending := false }, [Act.emit (.error e)])
     | .fail e =>
-      -- for_in's mapper / while_do's condition raising: the iterator yields `defer(…)`/`throw(ex)`, an (unlogged) source that
-      -- is subscribed like any other (`subscription.disposable = d` closes the previous holder first) and fails at once.
-      -- Only meaningful for the concat kind (under catch / on_error_resume_next such a source would be continued over).
-      ({ s with pending := false }, [Act.unsub (s.idx - 1), Act.emit (.error e)])
+      -- the iterator yields a source that fails at once with `e` and is NOT one of the logged sources: for_in's mapper /
+      -- while_do's condition raising (the code wraps them into `defer(…)` / `throw(ex)`), or a `throw(ex)` passed in the
+      -- source list. It is subscribed like any other (`subscription.disposable = d` closes the previous holder first) and
+      -- occupies position `idx`. concat: its error is the result's error. catch / on_error_resume_next: its error is
+      -- continued over — remembered as last_exception (catch) and the next action is scheduled.
+      match kind with
+      | .concat => ({ s with pending := false }, [Act.unsub (s.idx - 1), Act.emit (.error e)])
+      | .catch => ({ s with idx := s.idx + 1, lastErr := some e, pending := true }, [Act.unsub (s.idx - 1)])
+      | .oern => ({ s with idx := s.idx + 1, pending := true }, [Act.unsub (s.idx - 1)])
 
 def seqM {α} (kind : SeqKind) (items : Nat → Item) : Machine SeqSt α α :=
   { handler := seqHandler kind, tick := seqTick kind items }
